@@ -9,7 +9,8 @@
 //! applied to the Store account; the clock is the syscall stub.
 //!
 //! modes:
-//!   replay --in paths.ndjson --out trace.ndjson     paths printed by MC_Timelock (one per state)
+//!   replay --in paths.ndjson --out trace.ndjson [--probe 1]   paths printed by MC_Timelock (one per
+//!          distinct state); with --probe every buffer operation of the model is also tried in every state
 //!   random --seed S --n N --len L --out trace.ndjson
 use anchor_lang::{
     prelude::Pubkey,
@@ -57,6 +58,7 @@ struct Snap {
     bufs: Vec<(Pubkey, u64, Vec<u8>)>,
     ghost: Vec<(Ghost, u8)>,
     now: i64,
+    keeper_lamports: u64,
 }
 
 struct World {
@@ -160,6 +162,7 @@ impl World {
             bufs: self.bufs.iter().map(|b| (b.owner(), b.lamports(), b.data())).collect(),
             ghost: self.ghost.clone(),
             now: self.now,
+            keeper_lamports: self.keeper.lamports(),
         }
     }
     fn restore(&mut self, s: &Snap) {
@@ -170,6 +173,7 @@ impl World {
         }
         self.ghost = s.ghost.clone();
         self.now = s.now;
+        self.keeper.set(system_program::ID, s.keeper_lamports, &[]);
         rt::set_now(s.now);
     }
 
@@ -428,6 +432,7 @@ fn replay(args: &Args) -> i32 {
     }
     let nb = rows[0]["nb"].as_u64().unwrap() as usize;
     let na = rows[0]["na"].as_u64().unwrap() as usize;
+    let probe = args.num("probe", 0) == 1;
     // one world per initial delay (first path element), snapshots per path
     let mut worlds: HashMap<i64, World> = HashMap::new();
     let mut snaps: HashMap<String, Snap> = HashMap::new();
@@ -443,7 +448,26 @@ fn replay(args: &Args) -> i32 {
         let s = snaps.get(&parent).unwrap_or_else(|| panic!("parent path missing: {parent}")).clone();
         w.restore(&s);
         exec_and_log(w, &call_from_json(&path[path.len() - 1]), path.len() == 2, &mut sink);
-        snaps.insert(Value::Array(path.to_vec()).to_string(), w.snapshot());
+        let here = w.snapshot();
+        if probe {
+            // in every distinct state: every buffer operation of the model (most of them must fail)
+            let mut calls = vec![];
+            for b in 1..=nb {
+                for sh in 1..=3 {
+                    calls.push(Call { op: "create".into(), b, x: sh });
+                }
+                for a in 1..=na {
+                    calls.push(Call { op: "approve".into(), b, x: a as i64 });
+                }
+                calls.push(Call { op: "cancel".into(), b, x: 0 });
+                calls.push(Call { op: "execute".into(), b, x: 0 });
+            }
+            for c in calls {
+                exec_and_log(w, &c, true, &mut sink);
+                w.restore(&here);
+            }
+        }
+        snaps.insert(Value::Array(path.to_vec()).to_string(), here);
     }
     eprintln!("events {}", sink.finish());
     0
